@@ -10,3 +10,6 @@ except ImportError:
     pass
 from . import spec_smf           # noqa: F401
 from . import c_meta             # noqa: F401
+from . import c_frozen           # noqa: F401
+from . import c_charset          # noqa: F401
+from . import b_charset          # noqa: F401
